@@ -962,13 +962,13 @@ func (w *worldExec) decideOne(label string, c *CheckSpec, useHook bool) decision
 		if v.P && !v.K {
 			o.Violate("C02", "commands", "allowed although "+v.whyK, attrs)
 		}
-		if v.P && !v.Q {
+		if v.P && !v.Q && v.Qdefinite {
 			o.Violate("C03", "policies", "allowed although "+v.whyQ, attrs)
 		}
 		if v.P && !v.Wsound {
 			o.Violate("C04", "chain-window", "allowed although "+v.whyW, attrs)
 		}
-	} else if v.P && v.K && v.Q && v.Wstrict && allLoaded && !(useHook && c.Hook == "fail") && !hookFailed {
+	} else if v.P && v.K && v.Q && v.Qdefinite && v.Wstrict && allLoaded && !(useHook && c.Hook == "fail") && !hookFailed {
 		o.Violate("C05", "completeness", fmt.Sprintf("conforming chain denied: %v", err), attrs)
 	}
 
@@ -1009,7 +1009,10 @@ func (w *worldExec) decideOne(label string, c *CheckSpec, useHook bool) decision
 		}
 	}
 	o.Sig("C04", wsig, allowed)
-	if v.P && v.K && v.Q && v.Wstrict {
+	if !v.Qdefinite {
+		o.Probe("policy_verdict_indefinite")
+	}
+	if v.P && v.K && v.Q && v.Qdefinite && v.Wstrict {
 		o.Sig("C05", nl, repPattern(spec, dl), audKind, spec.Iat, spec.Exp != nil, len(spec.Meta), spec.Cause, spec.NonceLen, c.Hook, useHook)
 	}
 	return decision{ran: true, allowed: allowed, verdict: v}
